@@ -11,7 +11,7 @@
 (*           remove n | replace n | reopen | badctx (a run with another       *)
 (*           batch_size or seed: must be refused)                            *)
 (***************************************************************************)
-EXTENDS Naturals, Integers, Sequences, FiniteSets, TLC, Json, IOUtils
+EXTENDS Naturals, Integers, Sequences, FiniteSets, TLC, Json, IOUtils, PoolOps
 
 Traces == JsonDeserialize(IOEnv.TRACE_FILE)
 VARIABLES tid, l, held, saved, verdict, drift, done
@@ -41,6 +41,16 @@ JudgeM(e) ==
          IF e.raised # "" THEN ""
          ELSE IF DOMAIN e.held0 # DOMAIN held THEN "M:stored-set"
          ELSE IF \E n \in DOMAIN held : SeqSet(e.held0[n]) # held[n] THEN "M:held-before-run"
+         \* the operations that run for batch i are among those the design's executor needs (PoolOps!Need) given what the pool
+         \* held for that batch and what was requested.  NOT a clause of C05 (whose "never invoked again" speaks of STORED nodes):
+         \* a needless run of an un-stored operation leaves the results unchanged; it is C03's clause f.  Mechanism clause here.
+         ELSE IF \E c \in SeqSet(e.calls) :
+                   LET ld == {n \in DOMAIN e.held0 : c[2] \in SeqSet(e.held0[n])}
+                       \* (PoolLoader adds a store that misses the batch to the outputs set of the sampler's compiled net - for the
+                       \*  life of that sampler object: e.sticky = the stores this sampler object met in its earlier runs)
+                       outs == SeqSet(e.req) \cup DOMAIN e.held0 \cup SeqSet(e.sticky)
+                   IN c[1] \in {"sim", "S", "d"} /\ c[1] \notin Need(outs \ ld, ld)
+              THEN "M:no-operation-run-that-the-held-batch-makes-needless"
          ELSE ""
     [] OTHER -> ""
 
